@@ -91,6 +91,34 @@ class Hooks:
         return v
 
 
+class Timeout(BaseException):
+    pass
+
+
+def _alarm(signum, frame):
+    raise Timeout()
+
+
+class time_limit:
+    """Guard against non-termination of an *instrumented* run whose untouched twin finished
+    in microseconds.  Only usable in the main thread (shards are single-threaded)."""
+
+    def __init__(self, seconds=5.0):
+        self.seconds = seconds
+
+    def __enter__(self):
+        import signal
+
+        self.old = signal.signal(signal.SIGALRM, _alarm)
+        signal.setitimer(signal.ITIMER_REAL, self.seconds, 0.05)
+
+    def __exit__(self, *a):
+        import signal
+
+        signal.setitimer(signal.ITIMER_REAL, 0)
+        signal.signal(signal.SIGALRM, self.old)
+
+
 def run_call(fn_obj, fn_ir, recipe, glb, script=None):
     """Call the function (or drive the generator) and return the outcome record."""
     args, kwargs, watch = PG.build_args(fn_ir, recipe, glb)
@@ -110,7 +138,8 @@ def run_call(fn_obj, fn_ir, recipe, glb, script=None):
         else:
             out["result"] = ("ret", nrepr(res))
             out["ret_obj"] = res
-    gc.collect()
+    if fn_ir["gen"]:
+        gc.collect()
     out["log"] = list(glb["LOG"])
     out["watch"] = {k: nrepr(v) for k, v in watch.items()}
     out["globals"] = {k: nrepr(glb.get(k)) for k in ("G1", "G2")}
